@@ -92,16 +92,24 @@ import uberjob.stores as st
 from uberjob._transformations.caching import _to_naive_utc_time
 inst = json.load(sys.stdin)
 d = tempfile.mkdtemp(); p = os.path.join(d, 'f'); open(p, 'w').close()
+dd = os.path.join(d, 'dir'); os.mkdir(dd)
+e1, e2 = os.path.join(dd, 'early'), os.path.join(dd, 'late')
+open(e1, 'w').close(); open(e2, 'w').close()
 out = []
 try:
     for i in inst:
         os.utime(p, ns=(i * 1000, i * 1000))
+        # a path that is a DIRECTORY whose entries were modified 40 minutes before / 20 minutes after the directory itself
+        os.utime(e1, ns=((i - 2400 * 10**6) * 1000, (i - 2400 * 10**6) * 1000)); os.utime(e2, ns=((i + 1200 * 10**6) * 1000, (i + 1200 * 10**6) * 1000))
+        os.utime(dd, ns=(i * 1000, i * 1000))
         m = get_modified_time(p)
         c = _to_naive_utc_time(m)
         per = {}
         for cls in (st.PathSource, st.TextFileStore, st.JsonFileStore, st.BinaryFileStore, st.PickleFileStore, st.TouchFileStore):
             mk = cls(p).get_modified_time()
             per[cls.__name__] = (_to_naive_utc_time(mk) - dt.datetime(1970, 1, 1)) // dt.timedelta(microseconds=1)
+            mk = cls(dd).get_modified_time()
+            per[cls.__name__ + " on a directory"] = (_to_naive_utc_time(mk) - dt.datetime(1970, 1, 1)) // dt.timedelta(microseconds=1)
         out.append([(c - dt.datetime(1970, 1, 1)) // dt.timedelta(microseconds=1), m.fold, m.tzinfo is None, per])
 finally:
     shutil.rmtree(d, ignore_errors=True)
@@ -179,6 +187,12 @@ def run(ctx):
         return x + rng.randint(-10, 10) * MIN15 + rng.choice([0, 0, 1, -1, 999999, 30 * 60 * 10 ** 6 - 1])
 
     def rep_kind(kind, i, z):
+        r = _rep_kind(kind, i, z)
+        if rng.random() < 0.25:
+            r["sub"] = True        # the same datetime as an instance of a datetime SUBCLASS (as pandas.Timestamp, arrow, pendulum values are)
+        return r
+
+    def _rep_kind(kind, i, z):
         if kind == "naive":
             return {"t": "naive", "i": i}
         if kind == "utc":
